@@ -192,7 +192,9 @@ func (m *ModelServer) AcknowledgePublication(_ context.Context, request *traits.
 		}),
 	)
 
-	if err == alreadyAcknowledged && request.AllowAcknowledged {
+	// Collection.Update re-wraps status errors, so the sentinel can't be compared by identity:
+	// acknowledgedPub is only set when the check above reported alreadyAcknowledged.
+	if err != nil && acknowledgedPub != nil && request.AllowAcknowledged {
 		return acknowledgedPub, nil
 	}
 
